@@ -21,8 +21,12 @@ def run(prop, tier):
         ctx = Ctx(prop, tier, model)
         mod.run(ctx)
         floors = getattr(mod, "FLOORS", {})
-        for rid, n in floors.items():
-            ctx.floor(rid, ctx.rule_instances.get(rid, 0), n)
+        from .report import load_known
+        known = {e["key"] for e in load_known() if e.get("property") == prop and e.get("status") == "known"}
+        if not any(f.key not in known for f in ctx.findings):
+            # a run that already reports an unlisted finding is a violation; the floors guard against vacuous PASSES only
+            for rid, n in floors.items():
+                ctx.floor(rid, ctx.rule_instances.get(rid, 0), n)
         extra = {}
         if tier == "thorough":
             # deeper rules of the property (derived identities, whole-class sweeps) ...
